@@ -234,6 +234,12 @@ def run(tier):
     # the value objects the driver hands out (fdata / fieldlist): Field.tla, every operation sequence replayed on the real objects
     from . import field_model
     field_model.run(rep, tier, wd)
+    # the monitor clause with SYMBOLIC frequency, starting stamp, times and steps (Apalache, bounded in the number of iterations)
+    core.apalache_suite(rep, "Apa_Driver", ["InvMonitor"],
+                        "model level, beyond the lattice: Apa_Driver.tla checks with Apalache/Z3 that a monitor holds exactly the "
+                        "trajectory states whose cumulative iteration number is a multiple of its frequency, for EVERY frequency, "
+                        "starting stamp, time and step, over the first %d loop iterations" % (5 if tier == "quick" else 11),
+                        timeout=1800, length=6 if tier == "quick" else 12)
     from . import driver_trace
     driver_trace.report(rep, traces, wd, lambda tid: "cls=%s script=%s" % (meta[tid][1], json.dumps(meta[tid][0]["calls"])[:300]))
     # judge
